@@ -407,9 +407,9 @@ func c37CheckDoc(conv *index.VerifTagsToSections, di int, d c37Doc) (c37Outcome,
 // depend on the documents added before, so one builder serves many cases; it
 // is replaced after 2500 documents and after any failed Add.
 var (
-	c37Builder      *index.ShardBuilder
-	c37BuilderDocs  int
-	c37Probes       int
+	c37Builder     *index.ShardBuilder
+	c37BuilderDocs int
+	c37Probes      int
 )
 
 func c37GetBuilder() (*index.ShardBuilder, error) {
